@@ -1,10 +1,15 @@
-(* C07 -- writer conformance.  Statements only. *)
-From P7 Require Import Prelude PyPrims Number Header Spec.
+(* C07 -- writer conformance: every header py7zr's write sessions emit is accepted by the STRICT
+   specification reader, is structurally valid, and means exactly the members that were written.
+   Statements, `exact`, Print Assumptions only; the proofs are in theories/SpecProofs.v.
+   write_header (Header.v): hand model of Header.write / PackInfo / Folder / UnpackInfo / SubstreamsInfo /
+   FilesInfo .write, differential-tested byte for byte; s_header, s_valid, spec_plans (Spec.v): the strict
+   reader transcribed from the format text; wf_written, plans_of, sem_of (SpecProofs.v): the invariants of
+   the header graphs py7zr writes, their intended member list, and the semantic header they denote. *)
+From P7 Require Import Prelude PyPrims Number Header HeaderPrims Spec SpecProofs.
 Open Scope Z_scope.
 
 (* a concrete non-trivial header graph of the kind py7zr builds: its model-writer output is accepted by the strict
-   specification reader, is structurally valid and assigns the intended members (vm_compute); the general theorem
-   (for every wf header) lives in SpecProofs.v once proved *)
+   specification reader, is structurally valid and assigns the intended members (vm_compute) *)
 Definition c07_example : header :=
   mkHeader
     (Some (mkStreams (Some (mkPack 0 1 [40] [] []))
@@ -26,3 +31,125 @@ Example C07_writer_conforms_example :
   | Err _ => False
   end.
 Proof. vm_compute. repeat split; reflexivity. Qed.
+
+(* ---- the general theorem ---- *)
+(* for every header graph satisfying the invariants of py7zr's write sessions, every digest mode and every
+   file position: the bytes the writer emits are accepted by the strict reader (exact NUMBERs, exact property
+   sizes, CRCs for defined entries only, no trailing bytes), are structurally valid, and denote exactly the
+   intended members (name, kind, folder, offset, size, CRC, mtime, attributes of every entry) *)
+Theorem C07_writer_conforms : forall lim en pos h bs,
+  wf_written lim h -> write_header en pos h = Ok bs ->
+  exists sh, s_header lim bs = Ok sh /\ s_valid sh = true /\ spec_plans sh = plans_of h.
+Proof. exact writer_conforms. Qed.
+Print Assumptions C07_writer_conforms.
+
+(* stronger: the strict reader returns this semantic header (pack info, folders, sub-stream counts, sizes,
+   CRCs, entries, EmptyFile vector) *)
+Theorem C07_writer_conforms_sem : forall lim en pos h bs,
+  wf_written lim h -> write_header en pos h = Ok bs -> s_header lim bs = Ok (sem_of en h).
+Proof. exact writer_conforms_sem. Qed.
+Print Assumptions C07_writer_conforms_sem.
+
+(* the invariants, spelled out for a header with all sections (Header.initialize creates them together) *)
+Theorem C07_wf_written_spelled_out : forall lim p fs sub files ef,
+  wf_written_b lim (mkHeader (Some (mkStreams (Some p) (Some fs) (Some sub))) (Some files) ef) =
+  (zlen fs <=? lim)
+  && ((p_numstreams p =? zlen fs)
+      && ((length (p_digestdefined p) =? 0)%nat || (zlen (p_digestdefined p) =? p_numstreams p)))
+  && forallb (fun f =>
+       let n := zlen (f_coders f) in
+       (1 <=? n) && (n <=? 32) && (n <=? lim)
+       && forallb (fun c => ((c_nin c =? 1) && (c_nout c =? 1))
+                            && ((1 <=? zlen (c_method c)) && (zlen (c_method c) <=? 15))) (f_coders f)
+       && pairs_eqb (f_bonds f) (map (fun i => (i + 1, i)) (py_range 0 (n - 1)))
+       && (zlen (f_unpacksizes f) =? n)) fs
+  && ((length (s_nums sub) =? length fs)%nat
+      && (sumZ (s_nums sub) <=? lim)
+      && (zlen (s_digestsdefined sub) =? sumZ (s_nums sub))
+      && (zlen (Header.s_digests sub) =? sumZ (s_nums sub))
+      && match s_sizes sub with
+         | Some sz => forallb (fun x => 0 <=? x) sz && wf_sub_sizes (s_nums sub) fs sz
+         | None => false
+         end)
+  && ((zlen files <=? lim)
+      && forallb (fun f => match e_name f with Some n => wf_name_bs n | None => false end) files
+      && (zlen ef =? count_true (map e_emptystream files)))
+  && (zlen (filter (fun e => negb (e_emptystream e)) files) =? sumZ (s_nums sub)).
+Proof. intros. reflexivity. Qed.
+Print Assumptions C07_wf_written_spelled_out.
+
+(* the hypotheses are met by a concrete non-trivial state (two folders, one with a two-coder chain,
+   partially defined vectors, astral-plane and backslash names, a directory and an empty file) *)
+Theorem C07_wf_written_example :
+  wf_written 1000 ex_written /\
+  map pl_kind (plans_of ex_written) = [0; 2; 0; 1; 0] /\
+  map pl_folder (plans_of ex_written) = [0; -1; 0; -1; 1] /\
+  map pl_offset (plans_of ex_written) = [0; 0; 100; 0; 0] /\
+  map pl_size (plans_of ex_written) = [100; 0; 200; 0; 30] /\
+  map pl_crc (plans_of ex_written) = [Some 1; None; Some 4294967295; None; None] /\
+  map pl_mtime (plans_of ex_written) = [Some 132223104000000000; None; None; Some 1; Some 0].
+Proof. exact (conj ex_written_wf ex_written_plans). Qed.
+Print Assumptions C07_wf_written_example.
+
+(* ---- section theorems: each strict section reader on what the corresponding .write emits ---- *)
+Theorem C07_packinfo_strict : forall lim en nf p bs,
+  wfw_pack nf p = true -> nf <= lim -> write_packinfo en p = Ok bs ->
+  exists body, bs = 6 :: body /\
+    forall r, s_packinfo lim (body ++ r) = Ok ((p_pos p, p_sizes p, sem_packcrcs en p), r).
+Proof. exact s_packinfo_wr. Qed.
+Print Assumptions C07_packinfo_strict.
+
+Theorem C07_unpackinfo_strict : forall lim fs bs,
+  zlen fs <= lim -> forallb (wfw_folder lim) fs = true -> write_unpackinfo fs = Ok bs ->
+  exists body, bs = 7 :: body /\ forall r, s_unpackinfo lim (body ++ r) = Ok (map sem_folder fs, r).
+Proof. exact s_unpackinfo_wr. Qed.
+Print Assumptions C07_unpackinfo_strict.
+
+Theorem C07_substreams_strict : forall lim fs s sz bs,
+  Forall (fun f => wfw_folder lim f = true) fs -> zlen fs <= lim ->
+  wfw_sub lim fs s = true -> s_sizes s = Some sz -> (length (s_nums s) =? 0)%nat = false ->
+  write_substreams s = Ok bs ->
+  exists body, bs = 8 :: body /\
+    forall r, s_substreams lim (map sem_folder fs) (body ++ r) =
+              Ok ((s_nums s, sz, crc_opts (Header.s_digests s) (s_digestsdefined s)), r).
+Proof. exact s_substreams_wr. Qed.
+Print Assumptions C07_substreams_strict.
+
+Theorem C07_files_strict : forall lim pos files ef bs,
+  zlen files <= lim -> named_bs files = true -> write_files pos files ef = Ok bs ->
+  exists body, bs = 5 :: body /\
+    forall r, s_files lim (body ++ r) = Ok ((map norm_file files, norm_emptyfiles files ef), r).
+Proof. exact s_files_wr. Qed.
+Print Assumptions C07_files_strict.
+
+(* "file properties are encoded with the sizes the grammar requires": for EVERY list of entries (no
+   hypothesis: partially defined vectors, astral-plane names, any position), FilesInfo.write emits a sequence
+   of records  id, NUMBER(length of content), content  whose contents are exactly the bit vectors, names
+   and value vectors of the grammar *)
+Theorem C07_property_sizes_exact : forall pos files ef bs,
+  write_files pos files ef = Ok bs ->
+  exists recs,
+    bs = [5] ++ number_enc (zlen files) ++ flat_map enc_record recs ++ [0] /\
+    Forall (record_content files (norm_emptyfiles files ef)) recs.
+Proof. exact property_sizes_exact. Qed.
+Print Assumptions C07_property_sizes_exact.
+
+(* ---- the clauses of wf_written are needed ---- *)
+(* a NUL inside a name (accepted by writestr/write arcnames) is written as the terminator: the NAME record
+   no longer holds one terminated string per entry and the strict reader rejects the header *)
+Theorem C07_nul_in_name_refuted :
+  exists bs, write_header false 32 q_nul_name = Ok bs /\ s_header 1000 bs = Err EBad7z /\
+             ~ wf_written 1000 q_nul_name.
+Proof. exact nul_in_name_refuted. Qed.
+Print Assumptions C07_nul_in_name_refuted.
+
+Theorem C07_sizes_sum_needed :
+  exists bs sh, write_header false 32 q_sizes_sum = Ok bs /\ s_header 1000 bs = Ok sh /\
+                map pl_size (spec_plans sh) = [100; 150] /\ map pl_size (plans_of q_sizes_sum) = [100; 200].
+Proof. exact sizes_sum_needed. Qed.
+Print Assumptions C07_sizes_sum_needed.
+
+Theorem C07_data_count_needed :
+  exists bs sh, write_header false 32 q_data_count = Ok bs /\ s_header 1000 bs = Ok sh /\ s_valid sh = false.
+Proof. exact data_count_needed. Qed.
+Print Assumptions C07_data_count_needed.
